@@ -287,6 +287,23 @@ func (env *specEnv) tryEvalBool(ex Expr) (t Term, ok bool) {
 	return env.evalBool(ex), true
 }
 
+// siteEvalBool evaluates a call-site clause; "" when it mentions the result of a call that no path to the
+// site has executed (any other specification error stays an error).
+func (env *specEnv) siteEvalBool(ex Expr) (t Term) {
+	saveNoname, saveQuant := env.eng.vc.noname, env.quant
+	defer func() {
+		if r := recover(); r != nil {
+			env.eng.vc.noname, env.quant = saveNoname, saveQuant
+			if se, isSpec := r.(specErr); isSpec && strings.Contains(fmt.Sprint(se), "no call matches") {
+				t = ""
+				return
+			}
+			panic(r)
+		}
+	}()
+	return env.evalBool(ex)
+}
+
 // havocTargets replaces the cells named by resolved modifies targets with arbitrary values.
 func (e *Engine) havocTargets(st *State, ts []modTarget) {
 	vc := e.vc
@@ -491,8 +508,13 @@ func (fr *Frame) checkSites(cx *callCtx) {
 			n = ss.Ordinal
 		}
 		for k, c := range ss.Requires {
-			g := env.evalBool(c.Expr)
-			e.vc.oblige(top.oblName(fmt.Sprintf("site.%s.%d.%s", ss.Pattern, n, clauseID(c, k))), "site", cx.st.pc, g, c.Src)
+			g, src := env.siteEvalBool(c.Expr), c.Src
+			if g == "" {
+				// the clause refers to the value of a call (@callee, atcall) that has not happened when this
+				// site is reached: the order the clause relies on is gone, which is a failed obligation
+				g, src = "false", c.Src+"   [a call this clause refers to does not precede the site]"
+			}
+			e.vc.oblige(top.oblName(fmt.Sprintf("site.%s.%d.%s", ss.Pattern, n, clauseID(c, k))), "site", cx.st.pc, g, src)
 		}
 		e.vc.cover(top.oblName(fmt.Sprintf("site.%s.%d.reach", ss.Pattern, n)), cx.st.pc, "site reachable")
 	}
